@@ -586,6 +586,9 @@ func (x *c09Session) runStep(k int) bool {
 	io.Pos = clampInt(io.Pos, 0, max(0, io.Count-1)) // a GET can come before the redraw that clamps the cursor
 	mo := c09ObsOfModel(x.model)
 	so := c09ObsOfSpec(x.spec)
+	if os.Getenv("VERIF_DEBUG") != "" {
+		fmt.Fprintf(os.Stderr, "step %d %v impl=%+v model=%+v spec=%+v\n", k, st, io, mo, so)
+	}
 	atomic.AddInt64(&x.stats.steps, 1)
 	key, _ := json.Marshal([]interface{}{cfg.Layout, cfg.Multi, cfg.Cycle, st, prevModel})
 	x.c.Rep.Eval(string(key), !mo.eq(prevModel))
@@ -837,7 +840,7 @@ func c09GenStep(r *RNG, cfg c09Cfg, cur c09Obs, k int) []c09Step {
 		return []c09Step{{Kind: "keys", Keys: c09RandText(r, 1, cfg)}}
 	case kind == 1 && k > 2:
 		return []c09Step{{Kind: "reload"}}
-	case kind >= 2 && kind <= 4 && !cfg.Disabled && !cfg.NoInput && cfg.Multi != 0:
+	case kind >= 2 && kind <= 3 && !cfg.Disabled && !cfg.NoInput && cfg.Multi >= 0:
 		// selection across query changes: list some lines, select them all, list OTHER lines (the selection survives and may
 		// be as large as or larger than the new list), then act on "the current results" again
 		t1 := c09RandText(r, 1, cfg)
@@ -938,7 +941,7 @@ func c09GenCfg(r *RNG) c09Cfg {
 	cfg.NoInput = r.Chance(1, 8)
 	cfg.Disabled = r.Chance(2, 3)
 	if !cfg.Disabled && r.Chance(1, 2) {
-		cfg.Multi = -1 // live lists + unlimited selection: the selection can outgrow and outlive the current results
+		cfg.Multi = 0 // (0 = unlimited) live lists + unlimited selection: the selection can outgrow and outlive the current results
 	}
 	cfg.FileWord = r.Chance(1, 5)
 	if r.Chance(1, 4) {
